@@ -162,6 +162,7 @@ func roundtripMain(args []string) int {
 		}
 	}
 	cover := map[string]int{}
+	auditOn = true
 	RunProbe(lg, &stt)
 	for wn := 0; wn < *nwl; wn++ {
 		wseed := *seed + int64(1000*wn)
@@ -208,7 +209,10 @@ func roundtripMain(args []string) int {
 		fmt.Fprintln(os.Stderr, err)
 		return 1
 	}
+	never, total := AuditNeverSet()
+	cover["recordFieldsObserved"], cover["recordFieldsNeverSet"] = total, len(never)
 	_ = sim.WriteJSON(*out+".cover.json", cover)
+	_ = sim.WriteJSON(*out+".neverset.json", never)
 	fmt.Printf("roundtrip: nodes=%d behaviours=%d %+v\n", len(lg.Nodes), nbeh, stt)
 	return 0
 }
